@@ -57,9 +57,9 @@ PROPS["C18"] = dict(
                 "valence_encoding/handle_encoding/handle_offset bytes of the EDGES chunk -- the one block measured in CBMC)", **_C18F),
     dict(name="file-subst-tetp", entries=["harness_subst"], shards=_subst(FM_TETP, False), tiers=["thorough"],
          bounds=_FILES + "TETP: as TET plus the DIRP/PROP chunk headers, PROP span and property index", **_C18F),
-    dict(name="file-subst-compression", entries=["harness_subst_compression"], shards=[{0: FM_EMPTY, 1: 0}] + [{0: FM_TET, 1: b} for b in range(4)], tiers=["thorough"],
-         bounds=_FILES + "the chunk header's compression byte ('not specified yet, must always be 0') replaced by boundary values; kept apart from file-subst-* because the "
-                "property text names reserved bytes and encodings but not this field explicitly", **_C18F),
+    dict(name="file-subst-compression", entries=["harness_subst_compression"], shards={"quick": [{0: FM_EMPTY, 1: 0}], "thorough": [{0: FM_EMPTY, 1: 0}] + [{0: FM_TET, 1: b} for b in range(4)]},
+         bounds=_FILES + "the chunk header's compression byte ('not specified yet, must always be 0') of every chunk replaced by boundary values (quick: the EMPTY file; thorough: + TET): "
+                "the reader cannot decode such a payload and must not return Ok (defect fixed in 4a2fd2e)", **_C18F),
     dict(name="file-struct", entries=["harness_struct"], shards={"quick": [{0: FM_TET, 1: 0}], "thorough": [{0: FM_TET, 1: 0}, {0: FM_TET, 1: 1}, {0: FM_TETP, 1: 0}]},
          bounds=_FILES + "forbidden chunk sequences: TET: EOF dropped / duplicated / not last / first, EDGES|FACES|CELLS dropped, VERT|EDGES|FACES|CELLS duplicated, FACES before "
                 "EDGES, CELLS before FACES (13 cases); TETP: second DIRP, DIRP dropped, PROP before DIRP, EOF before PROP, EOF dropped (5 cases)", **_C18F),
